@@ -86,6 +86,9 @@ def run_case(ck, c, idx, coq_items):
     # --- emitted text vs generator model (checked in Coq)
     net = compiled.build(model, W)
     text = net.get_c_code()
+    if net.get_c_code() != text:
+        ck.disagree("generating the C code twice from one CompiledLogicNet gives two different programs", case,
+                    signature=dict(sig, what="regenerate"))
     try:
         p = cparse.parse_unit(text, W)
         p["sizes"][0] = c["in_dim"]
